@@ -470,6 +470,32 @@ Proof.
 Qed.
 
 (* ------------------------------------------------------------------ *)
+(** * The exhaustive grid both statements were first tested on (float-free slice; the full
+      8-value grid including a float gave the same verdicts) *)
+
+Definition grid_vals : list value :=
+  [VNil; VInt 1; VInt 3; VInt 5; VStr [97%N]; VBool true; VArr [VInt 1]].
+Definition grid_ranges : list range :=
+  flat_map (fun s => flat_map (fun e => flat_map (fun si =>
+    map (fun ei => mkRange s e si ei) [true; false]) [true; false]) grid_vals) grid_vals.
+Definition grid_intersect : bool :=
+  forallb (fun r1 => forallb (fun r2 => forallb (fun v =>
+    implb (in_range r1 v && in_range r2 v) (in_range (range_intersect r1 r2) v))
+    grid_vals) grid_ranges) grid_ranges.
+Definition grid_empty : bool :=
+  forallb (fun r => forallb (fun v => implb (range_is_empty r) (negb (in_range r v))) grid_vals) grid_ranges.
+Definition grid_empty_bounded : bool :=
+  forallb (fun r => forallb (fun v =>
+    implb (end_bounded r && range_is_empty r) (negb (in_range r v))) grid_vals) grid_ranges.
+
+Example intersect_grid : grid_intersect = true.
+Proof. vm_compute. reflexivity. Qed.
+Example empty_grid_fails : grid_empty = false.
+Proof. vm_compute. reflexivity. Qed.
+Example empty_bounded_grid : grid_empty_bounded = true.
+Proof. vm_compute. reflexivity. Qed.
+
+(* ------------------------------------------------------------------ *)
 
 Print Assumptions regime_cmp_dom3.
 Print Assumptions intersect_sound.
